@@ -413,6 +413,9 @@ pub fn parse_choice_text(input: &str) -> Result<ParsedChoiceText, CompilerError>
         let (start_text, start_tags) = split_text_and_tags(&display)?;
         let selected = if suffix.is_empty() {
             Some(display.clone())
+        } else if suffix.starts_with('#') && after.starts_with(char::is_whitespace) {
+            // `text[] #tag`: the blank before the tag is part of the printed text
+            Some(format!("{display} {suffix}"))
         } else if suffix.starts_with(|c: char| c.is_ascii_punctuation() && c != '"' && c != '\'') {
             Some(format!("{display}{suffix}"))
         } else {
@@ -467,7 +470,15 @@ pub fn parse_choice_text(input: &str) -> Result<ParsedChoiceText, CompilerError>
         let choice_only_text = format!("{choice_only_text}{display_suffix}");
         let display = format!("{start_text}{choice_only_text}");
         let selected_text = if end_text.is_empty() {
-            start_text.trim_end().to_owned()
+            if !end_tags.is_empty()
+                && trimmed[close + 1..].starts_with(char::is_whitespace)
+                && !start_text.trim().is_empty()
+            {
+                // `text[x] #tag`: the blank before the tag is part of the printed text
+                format!("{} ", start_text.trim_end())
+            } else {
+                start_text.trim_end().to_owned()
+            }
         } else if start_text.trim().is_empty() {
             end_text
         } else if end_text
